@@ -23,6 +23,9 @@ def closure(errs):
     return out
 
 
+crash_mode = False
+
+
 def check_one(mods, d, schema, instance, fmt=False):
     jsonschema, validators, exceptions = mods
     cls = {3: validators.Draft3Validator, 4: validators.Draft4Validator, 6: validators.Draft6Validator, 7: validators.Draft7Validator}[d]
@@ -43,8 +46,12 @@ def check_one(mods, d, schema, instance, fmt=False):
         mod = e
     except exceptions.ValidationError as e:
         mod = e
+    except exceptions.RefResolutionError:
+        return None
     except Exception as e:      # noqa
         if schema_ok:
+            if crash_mode and type(e).__name__ not in ("UnknownType",):
+                return "module validate() let %s escape on a schema check_schema accepts" % type(e).__name__
             return None      # crashes are C03
         return "module validate raised %s for a schema check_schema rejects (SchemaError expected first)" % type(e).__name__
     if not schema_ok:
@@ -66,7 +73,11 @@ def check_one(mods, d, schema, instance, fmt=False):
             first = None
         except exceptions.ValidationError as e:
             first = e
-    except Exception:      # noqa
+    except (exceptions.RefResolutionError, exceptions.UnknownType):
+        return None
+    except Exception as e:      # noqa
+        if crash_mode:
+            return "%s escapes a validator entry point on an accepted schema" % type(e).__name__
         return None
     if [ident(e) for e in errs] != [ident(e) for e in errs2]:
         return "repeating iter_errors gives different errors"
@@ -88,6 +99,8 @@ def check_one(mods, d, schema, instance, fmt=False):
 
 
 def search(job):
+    global crash_mode
+    crash_mode = bool(job.get("crashes"))
     mods = load(job["root"])
     from pyvc.rt_kw import VALUE_POOL, INSTANCE_POOL, has_ref, patterns_ok
     out, tried = [], 0
@@ -103,7 +116,7 @@ def search(job):
                     p = check_one(mods, d, schema, x, fmt=(k == "format"))
                     if p:
                         from pyvc.rt_kw import encode
-                        out.append({"kind": "E", "draft": d, "schema": encode(schema), "instance": encode(x), "problem": p})
+                        out.append({"kind": "S" if crash_mode else "E", "draft": d, "schema": encode(schema), "instance": encode(x), "problem": p})
                         if len(out) >= 3:
                             return {"failures": out, "tried": tried}
         # nested anyOf / oneOf below the root (best_match descent)
@@ -119,14 +132,16 @@ def search(job):
             except Exception as e:      # noqa
                 p, p2 = None, None
             if p or p2:
-                out.append({"kind": "E", "draft": d, "schema": schema, "instance": x, "problem": p or p2, "fmt": bool(p2 and not p)})
+                out.append({"kind": "S" if crash_mode else "E", "draft": d, "schema": schema, "instance": x, "problem": p or p2, "fmt": bool(p2 and not p)})
     return {"failures": out[:3], "tried": tried}
 
 
 def replay(job):
+    global crash_mode
     mods = load(job["root"])
     from pyvc.rt_kw import decode
     f = job["failure"]
+    crash_mode = f.get("kind") == "S"
     p = check_one(mods, f["draft"], decode(f["schema"]), decode(f["instance"]), fmt=f.get("fmt", False))
     if p:
         return {"status": "fails", "failure": dict(f, problem=p)}
